@@ -229,22 +229,28 @@ class _Gen(object):
         precision that is not the image of an integer dps, half of the sweeps with
         a fault in every other call."""
         r = self.rng
-        ents = [e for e in catalogue.CAT if 'mp' in e.ctxs]
+        actor = r.choice(['mp', 'mp', 'mp', 'mp', 'c1', 'iv', 'iv', 'fp'])
+        kind = 'mp' if actor in ('mp', 'c1') else actor
+        ents = [e for e in catalogue.CAT if kind in e.ctxs]
         start = r.randrange(len(ents))
         faulty = r.random() < 0.5
         self.rate = 0.5 if faulty else 0.0
         self.kinds = ['F1', 'F2']
         steps = []
-        self.cfg['sweep'] = True
+        self.cfg['sweep'] = actor
+        if actor == 'c1':
+            steps.append({'kind': 'clone', 'actor': 'c1', 'parent': 'mp', 'id': self.new_id()})
+            self.gm.clone('c1', 'mp')
         for k in range(10):
             e = ents[(start + k) % len(ents)]
             p = pick_prec(r, min(e.maxprec, 400))
             while p in _DPS_IMAGES:
                 p += 1
-            s = {'kind': 'setprec', 'actor': 'mp', 'value': {'t': 'int', 'v': p}, 'id': self.new_id()}
-            self._track(s)
-            steps.append(s)
-            st = e.gen(r, self.cfgw, actor='mp')
+            if actor != 'fp':
+                s = {'kind': 'setprec', 'actor': actor, 'value': {'t': 'int', 'v': p}, 'id': self.new_id()}
+                self._track(s)
+                steps.append(s)
+            st = e.gen(r, self.cfgw, actor=actor)
             st['id'] = self.new_id()
             self.maybe_fault(st, e.cb)
             steps.append(st)
